@@ -107,6 +107,16 @@ def main() -> int:
         subprocess.run(["git", "-C", "/repo", "worktree", "remove", "--force", wt], capture_output=True)
         shutil.rmtree(wt, ignore_errors=True)
     print(json.dumps(res, indent=1))
+    if keep and checks_only:
+        # refresh which checks fire in an existing, already confirmed record (the change itself is not re-confirmed)
+        mp = VERIF / "seeded" / sid / "meta.json"
+        if mp.is_file():
+            meta = json.loads(mp.read_text())
+            meta["checks_that_fire"] = res["fired"]
+            meta["caught_by_own_property"] = res["caught_by_own_property"]
+            meta["reports"] = res["reports"]
+            mp.write_text(json.dumps(meta, indent=1) + "\n")
+        return 0
     if keep and res.get("confirmed"):
         dst = VERIF / "seeded" / sid
         dst.mkdir(parents=True, exist_ok=True)
